@@ -79,7 +79,7 @@ Definition win_applyfx (fr : frame) (w : wfn) (keys : list (bool * expr)) (e : e
 
 Definition win_applyx (fr : frame) (w : wfnx) (keys : list (bool * expr)) (e : expr) (p : rel) (i : nat) : val :=
   match w with
-  | WB w => win_applyfx fr w keys e p i
+  | WB w => win_applyf fr w keys e p i
   | WRankDense =>
       match nth_error p i with
       | Some me => VInt (Z.of_nat (S (dense_before keys me None p)))
@@ -93,10 +93,25 @@ Definition win_colsx (fr : frame) (keys : list (bool * expr)) (cols : list (opti
                    cols (snd ir))
       (combine (seq 0 (length ps)) ps).
 
+(* window columns under a range frame read the generalised way (segx): descending / several / no sort keys *)
+Definition win_applyxr (a b : option Z) (w : wfnx) (keys : list (bool * expr)) (e : expr) (p : rel) (i : nat) : val :=
+  match w with
+  | WB w => win_applyfx (FRange a b) w keys e p i
+  | WRankDense => win_applyx (FRange a b) WRankDense keys e p i
+  end.
+Definition win_colsr (a b : option Z) (keys : list (bool * expr)) (cols : list (option name * wfnx * expr)) (p : rel) : rel :=
+  let ps := match keys with [] => p | _ => isort (keys_le keys) p end in
+  map (fun ir : nat * row =>
+         fold_left (fun acc c => match c with (nm, w, e) => shadow acc (None, nm, win_applyxr a b w keys e ps (fst ir)) end)
+                   cols (snd ir))
+      (combine (seq 0 (length ps)) ps).
+
 Inductive xtransform :=
 | XT (t : transform)
 | XWinF (fr : frame) (keys : list (bool * expr)) (cols : list (option name * wfnx * expr))
-| XGroupWinF (by_ : list name) (fr : frame) (keys : list (bool * expr)) (cols : list (option name * wfnx * expr)).
+| XGroupWinF (by_ : list name) (fr : frame) (keys : list (bool * expr)) (cols : list (option name * wfnx * expr))
+| XWinR (a b : option Z) (keys : list (bool * expr)) (cols : list (option name * wfnx * expr))
+| XGroupWinR (by_ : list name) (a b : option Z) (keys : list (bool * expr)) (cols : list (option name * wfnx * expr)).
 
 Definition applyx (t : xtransform) (l : rel) : rel :=
   match t with
@@ -104,6 +119,9 @@ Definition applyx (t : xtransform) (l : rel) : rel :=
   | XWinF fr keys cols => win_colsx fr keys cols l
   | XGroupWinF by_ fr keys cols =>
       flat_map (fun g => map (by_first by_) (win_colsx fr keys cols (snd g))) (groups (S (length l)) by_ l)
+  | XWinR a b keys cols => win_colsr a b keys cols l
+  | XGroupWinR by_ a b keys cols =>
+      flat_map (fun g => map (by_first by_) (win_colsr a b keys cols (snd g))) (groups (S (length l)) by_ l)
   end.
 
 Definition runx (base : rel) (ts : list xtransform) : rel := fold_left (fun l t => applyx t l) ts base.
